@@ -1,7 +1,7 @@
 #!/bin/bash
 # Offline setup: warm the Go build cache by building every harness once against /repo.
 set -u
-export GOFLAGS=-mod=mod GOPROXY=off GOSUMDB=off GOTOOLCHAIN=local
+export GOFLAGS=-mod=mod GOPROXY=off GOSUMDB=off GOTOOLCHAIN=local GODEBUG=goindex=0
 VERIF=$(cd "$(dirname "$0")" && pwd)
 cd "$VERIF/mc" || exit 1
 SCRATCH=$(mktemp -d /var/tmp/verif-setup-XXXXXX)
